@@ -131,7 +131,18 @@ func installHost(env *zygo.Zlisp, h *host) {
 var snapNames = []string{"g0", "g1", "g2", "g3", "g4", "g5", "h0", "h1", "r0", "r1", "f0", "f1", "f2", "sv0", "sv1", "zq1", "zq2", "zq3"}
 var snapMacros = []string{"m0", "m1", "zm"}
 
-func globalSnapshot(env *zygo.Zlisp) string {
+// globalSnapshot never panics: an interpreter whose stacks are so damaged that its global scope cannot
+// be read yields a marker that equals no healthy snapshot
+func globalSnapshot(env *zygo.Zlisp) (snap string) {
+	defer func() {
+		if r := recover(); r != nil {
+			snap = fmt.Sprintf("<<global scope unreadable: %v>>", r)
+		}
+	}()
+	return globalSnapshot1(env)
+}
+
+func globalSnapshot1(env *zygo.Zlisp) string {
 	var sb strings.Builder
 	for _, n := range snapNames {
 		v, ok := env.VerifGlobal(n)
@@ -157,8 +168,15 @@ func globalSnapshot(env *zygo.Zlisp) string {
 
 type depthVec struct{ Data, Scope, Addr, Loop int }
 
-func depthsOf(env *zygo.Zlisp) (depthVec, zygo.VerifDepthInfo) {
-	d := env.VerifDepths()
+func depthsOf(env *zygo.Zlisp) (dv depthVec, d zygo.VerifDepthInfo) {
+	defer func() {
+		if r := recover(); r != nil {
+			// unreadable control state is certainly not "at rest"
+			d = zygo.VerifDepthInfo{Data: -1, Scope: -1, Addr: -1, Loop: -1, ScopeName: []string{fmt.Sprintf("<<unreadable: %v>>", r)}}
+			dv = depthVec{-1, -1, -1, -1}
+		}
+	}()
+	d = env.VerifDepths()
 	return depthVec{d.Data, d.Scope, d.Addr, d.Loop}, d
 }
 
